@@ -37,6 +37,7 @@ META = {
     "assumptions": ["denominators recorded during execution non-zero"],
 }
 
+HEAVY = ("lowrank_pd", "dense_pd", "softabs", "dense_def", "lowrank_square_k2", "trifact_invfactor", "dense_sym", "lowrank_sym")
 ATTRS = ["T", "inv", "sqrt", "eigval", "eigvec", "array", "diagonal", "log_abs_det", "factor", "lu_and_piv", "matvec", "scaled"]
 
 
@@ -146,19 +147,62 @@ class _Rand(ConcMk):
     pos = real
     nonzero = real
 
+    def require(self, cond):
+        # documented preconditions of the leaf (e.g. a low-rank downdate stays positive definite): instances violating
+        # them are redrawn by concrete_pass
+        self.unmet = getattr(self, "unmet", False) or not bool(cond)
+
+
+class _ConstructorArgs:
+    """Records every ndarray passed to a constructor of a matrix class while active (nested constructors included)."""
+
+    def __enter__(self):
+        self.arrays, self.saved = [], []
+        for cls in vars(M).values():
+            if isinstance(cls, type) and issubclass(cls, M.Matrix) and "__init__" in cls.__dict__:
+                orig = cls.__dict__["__init__"]
+                self.saved.append((cls, orig))
+
+                def wrapped(obj, *a, __orig=orig, **k):
+                    stack = list(a) + list(k.values())
+                    while stack:
+                        x = stack.pop()
+                        if isinstance(x, np.ndarray):
+                            self.arrays.append(x)
+                        elif isinstance(x, (tuple, list)):
+                            stack.extend(x)
+                    return __orig(obj, *a, **k)
+                cls.__init__ = wrapped
+        return self
+
+    def __exit__(self, *exc):
+        for cls, orig in self.saved:
+            cls.__init__ = orig
+        return False
+
 
 def concrete_pass(rec, kind):
     """hash / copy / deepcopy / pickle equality and write protection on float instances (byte-level operations)."""
     rng = np.random.default_rng(5)
     n = 0
     for trial in range(3):
-        state = rng.bit_generator.state
-        a, _ = ml.make_leaf(M, _Rand(rng), kind, 2)
+        for _redraw in range(200):
+            state = rng.bit_generator.state
+            mk_a = _Rand(rng)
+            with _ConstructorArgs() as ctor:
+                a, _ = ml.make_leaf(M, mk_a, kind, 2)
+            if not getattr(mk_a, "unmet", False):
+                break
+        else:
+            rec.note(f"{kind}: no random instance met the leaf's preconditions")
+            return
         rng.bit_generator.state = state
         b, _ = ml.make_leaf(M, _Rand(rng), kind, 2)
         n += 1
         problems = []
-        params_at_construction = _params(a)
+        # parameters: arrays held by the object that are (views of) arrays handed to a matrix constructor; arrays the class
+        # derives and stores itself (e.g. SoftAbs' unreg_eigval) are not constructor parameters
+        params_at_construction = [x for x in _params(a) if any(np.shares_memory(x, y) for y in ctor.arrays)]
         try:
             if not (a == b):
                 problems.append("two instances built from equal parameters compare unequal")
@@ -202,7 +246,9 @@ def cases(tier):
     out = []
     L = 3 if th else 2
     for kind in ml.leaves(2):
-        if kind.startswith(("lowrank_pd", "dense_pd_product", "softabs_dense")) and not th:
+        if kind.startswith(HEAVY) and not th:
+            # quick tier: the classes whose attributes are expensive rational/transcendental terms get the five attributes
+            # every class has (all 20 ordered pairs); the full attribute list is explored in the thorough tier
             attrs = ["T", "inv", "array", "log_abs_det", "matvec"]
         else:
             attrs = ATTRS
